@@ -31,6 +31,8 @@ def bounds(tier):
 def cases(tier, seed):
     q = tier == "quick"
     amax = 4 if q else 5
+    # a stem carrying 0 into two long branches carrying 10 (given weights [12, 12]: both branches taken, the stem sees 24)
+    yield {"fam": "dag", "nodes": ["a", "b", "c", "d", "e", "f"], "arcs": [["a", "b", 0], ["b", "c", 10], ["c", "d", 10], ["b", "e", 10], ["e", "f", 10]], "full": True, "kcap": 2, "B": 1}
     for idx, shp in enumerate(world.dag_shapes(4 if q else 5)):
         if len(shp[1]) > amax:
             continue
@@ -286,6 +288,8 @@ def run(case):
         one("width", "int", "length_factors_far", {"path_length_ranges": [[3, 3], [4, 4], [0, 2], [5, 9]], "path_length_factors": [1, 20, 1, 2]}, factors=([(3, 3), (4, 4), (0, 2), (5, 9)], [1, 20, 1, 2]))
         pool = sorted({x for x in f.values() if x > 0}) + [F + 2]
         one("width", "int", "weights_superset", {"solution_weights_superset": pool}, pool=pool)
+        pool2 = [F + 2, F + 2]
+        one("width", "int", "weights_superset_heavy", {"solution_weights_superset": pool2}, pool=pool2)
     return _ret(viol, nt, tags)
 
 
